@@ -28,6 +28,7 @@ func init() {
 		"plonkreplay": plonkReplay,
 		"framing":     framingCmd,
 		"c10stress":   c10Stress,
+		"keycheck":    keyCheck,
 	}})
 }
 
@@ -114,6 +115,29 @@ func g1Class(cls string, orig, other, vkel curve.G1Affine) (curve.G1Affine, bool
 			return r, false
 		}
 		return *p, true
+	case "torsion":
+		// orig + T with T = [r]Q a pure cofactor-torsion point: only usable when the pairing cannot see T
+		p, _ := offSubgroup()
+		if p == nil || orig.IsInfinity() {
+			return r, false
+		}
+		var t curve.G1Affine
+		t.ScalarMultiplication(p, fr.Modulus())
+		if t.IsInfinity() {
+			return r, false
+		}
+		r.Add(&orig, &t)
+		if r.IsInSubGroup() {
+			return r, false
+		}
+		var neg curve.G1Affine
+		neg.Neg(&orig)
+		_, _, _, g2 := curve.Generators()
+		ok, err := curve.PairingCheck([]curve.G1Affine{r, neg}, []curve.G2Affine{g2, g2})
+		if err != nil || !ok {
+			return r, false
+		}
+		return r, true
 	}
 	panic("unknown g1 class " + cls)
 }
